@@ -8,4 +8,6 @@ var Registry = map[string]func(args []string){
 	"fidconc":  FidConc,
 	"cfs":      Cfs,
 	"wire":     Wire,
+	"chanw":    ChanW,
+	"chanr":    ChanR,
 }
